@@ -342,6 +342,7 @@ def run(ctx, which="C13"):
         bursts(ctx, T)
     if which == "C14":
         second_runs(ctx, T, rng)
+        failing_later_runs(ctx, T)
         closer_threads(ctx, T, rng)
     if which == "C15":
         external_dispatcher(ctx, T, rng)
@@ -401,6 +402,29 @@ def second_runs(ctx, T, rng):
             T.fail("spec", {"kind": "second-run", "first": ev1}, "a clean second run: open, data, message, close(1001,'ok'), returns False",
                    f"{res['returns']} {second}"[:300], {"site": "run_forever", "cls": "second-run"},
                    what="the same WebSocketApp object could not be run again cleanly")
+
+
+def failing_later_runs(ctx, T):
+    """a run that connected and ended, then a run whose connection is refused / rejected, then a good one:
+    every run ends with exactly one on_close and leaves the object reusable"""
+    from sim.sock import server_frame
+    allret = {c: "ret" for c in CBS}
+    good = {"events": [[1, "D", server_frame(8, b"\x03\xe8bye").hex()]]}
+    for bad in ({"refuse": True}, {"status": 503}):
+        sim = {"callbacks": dict(allret), "attempts": [good, bad, {"events": [[1, "D", server_frame(8, b"\x03\xe9again").hex()]]}],
+               "args": {}, "runs": 3}
+        res = run_app(sim)
+        idx = [i for i, e in enumerate(res["trace"]) if e[1] == "returned"]
+        runs, start = [], 0
+        for i in idx:
+            runs.append([e[1] for e in res["trace"][start:i]])
+            start = i + 1
+        T.case(("later-run-fails", str(bad)), bucket="second-run", sample={"second": str(bad), "runs": runs, "returns": res["returns"]})
+        want = [["open", "close"], ["error", "close"], ["open", "close"]]
+        if runs != want or res["returns"] != [False, True, False] or not res["app_sock_none"]:
+            T.fail("spec", {"kind": "later-run-fails", "second": str(bad)}, f"{want} returns [False, True, False]", f"{runs} {res['returns']}"[:300],
+                   {"site": "run_forever", "cls": "second-run", "second_fails": True},
+                   what="a run whose connection fails, on an object that was run before, must still end with on_close and leave the object reusable")
 
 
 def closer_threads(ctx, T, rng):
